@@ -157,6 +157,7 @@ type caseIn struct {
 	Payload string                `json:"payload"`
 	Cmd     *packet.CommandPacket `json:"cmd,omitempty"`
 	NoDispatch bool `json:"no_dispatch"`
+	Reps       int  `json:"reps"` // retain: how many times the packet is dispatched on ONE connection
 }
 type obs struct {
 	Ok   bool   `json:"ok"`
@@ -177,6 +178,7 @@ type caseOut struct {
 	TimedOut   bool            `json:"timed_out"`
 	Dispatched int             `json:"dispatched"`
 	DispErr    []bool          `json:"disp_err"`
+	RetainedPerOp float64      `json:"retained_per_op"`
 	PropOK     bool            `json:"prop_ok"`
 	PropMsg    string          `json:"prop_msg"`
 }
@@ -218,6 +220,68 @@ func freshDispatch(tp *packet.TransferPacket, out *caseOut) {
 	}
 	out.Dispatched++
 	out.DispErr = append(out.DispErr, herr != nil)
+}
+
+// runRetain: the same pre-auth packet dispatched Reps times on ONE unauthenticated connection; the heap retained
+// after a GC must not grow with the number of packets ("never ... retains memory beyond a fixed bound").
+func runRetain(c caseIn, out *caseOut) {
+	connSeq++
+	fc := newFakeConn(fmt.Sprintf("198.18.%d.%d", (connSeq/250)%250, connSeq%250+1))
+	defer fc.Close()
+	conn, err := fx.Session.CreateConnection(fc, fc)
+	if err != nil {
+		out.PropOK, out.PropMsg = false, "CreateConnection: "+err.Error()
+		return
+	}
+	defer fx.Session.CloseConnection(conn.ID)
+	send := func(n int) string {
+		for i := 0; i < n; i++ {
+			tp := &packet.TransferPacket{PacketType: packet.Type(c.Ty), Payload: unhx(c.Payload)}
+			if c.Cmd != nil {
+				cp := *c.Cmd
+				cp.CommandId = fmt.Sprintf("%s-%d", cp.CommandId, i)
+				tp.CommandPacket = &cp
+			}
+			var pan string
+			func() {
+				defer func() {
+					if r := recover(); r != nil {
+						pan = fmt.Sprintf("panic: %v", r)
+					}
+				}()
+				_ = fx.Session.HandlePacket(&types.StreamPacket{ConnectionID: conn.ID, Packet: tp, Timestamp: time.Now()})
+			}()
+			if pan != "" {
+				return pan
+			}
+		}
+		return ""
+	}
+	heap := func() uint64 {
+		runtime.GC()
+		runtime.GC()
+		var m runtime.MemStats
+		runtime.ReadMemStats(&m)
+		return m.HeapAlloc
+	}
+	if p := send(200); p != "" { // warm-up: lazily created structures
+		out.Panicked = p
+		return
+	}
+	time.Sleep(20 * time.Millisecond)
+	h0 := heap()
+	if p := send(c.Reps); p != "" {
+		out.Panicked = p
+		return
+	}
+	time.Sleep(50 * time.Millisecond)
+	h1 := heap()
+	grow := float64(0)
+	if h1 > h0 {
+		grow = float64(h1-h0) / float64(c.Reps)
+	}
+	out.RetainedPerOp = grow
+	out.Dispatched = c.Reps
 }
 
 func firstLines(s string, n int) string {
@@ -399,6 +463,8 @@ func runCase(raw json.RawMessage) interface{} {
 		wire = append(wire, 0x20, 0, 0, 0, 2, 0x41, 0x42)
 		runStream(wire, c.Cuts, false, false, out)
 		out.WireLen = len(wire)
+	case "retain":
+		runRetain(c, out)
 	case "loop":
 		wire := unhx(c.Wire)
 		runLoop(wire, c.Cuts, out)
@@ -416,6 +482,8 @@ func runCase(raw json.RawMessage) interface{} {
 		out.PropOK, out.PropMsg = false, out.Panicked
 	case out.TimedOut:
 		out.PropOK = false
+	case out.RetainedPerOp > 96:
+		out.PropOK, out.PropMsg = false, fmt.Sprintf("heap retained after GC grows by %.0f bytes per dispatched pre-auth packet (%d packets on one connection): memory retained without bound", out.RetainedPerOp, out.Dispatched)
 	case uint64(out.MaxPayload) > limit:
 		out.PropOK, out.PropMsg = false, fmt.Sprintf("decoded payload of %d bytes exceeds MaxPacketBodySize %d", out.MaxPayload, limit)
 	case out.AllocBytes > 6*limit+(8<<20):
